@@ -1682,6 +1682,14 @@ class Interp:
                 if h is None:
                     return self.unknown("method:" + fv.target, n, (generic_elem(fv.bound_self),))
                 return h(self, n, fv.bound_self, pos, kwargs)
+        if isinstance(fv, ObjV) and fv.tag == "delayed":
+            return ObjV(None, dict(func=fv.attrs["func"], pos=list(pos), kwargs=dict(kwargs)), tag="delayed-call")
+        if isinstance(fv, ObjV) and fv.tag == "parallel" and len(pos) == 1:
+            self.event("parallel-map", n, items=pos[0])
+            items = pos[0]
+            if isinstance(items, Seq) and all(isinstance(x, ObjV) and x.tag == "delayed-call" for x in items.items):
+                return Seq([self.apply(x.attrs["func"], x.attrs["pos"], x.attrs["kwargs"], n, env) for x in items.items], "list")
+            return self.unknown("parallel-over-" + type(items).__name__, n)
         if isinstance(fv, Unknown):
             return self.unknown("call-of-" + fv.tag, n)
         return self.unknown("call-" + type(fv).__name__, n)
